@@ -22,6 +22,7 @@ type Scenario struct {
 	Prop       string
 	Name       string
 	Root       func()
+	Setup      func() // run once per worker process (default schedule) before exploring
 	Horizon    time.Duration
 	PoolPoints bool
 	Sched      int // deviation bound (preemptions, select alternatives, early timers)
